@@ -10,7 +10,7 @@ import re
 from .model import int_type
 from .effects import writes_of, ASSIGN_OPS
 
-MAXD = 7
+MAXD = 60
 CMP = {'<', '<=', '>', '>=', '==', '!='}
 FLIP = {'<': '>', '<=': '>=', '>': '<', '>=': '<=', '==': '==', '!=': '!='}
 NEG = {'<': '>=', '<=': '>', '>': '<=', '>=': '<', '==': '!=', '!=': '=='}
@@ -332,7 +332,10 @@ class Bounds:
             for j in range(min(start, len(elems) - 1), -1, -1):
                 lst, calls = self.events[(b, j)]
                 # nested duplicates: an element that is a sub-expression of a later element was handled there as well
+                has_x = any(lv == X for (lv, n, op, rhs) in lst)
                 for (lv, n, op, rhs) in reversed(lst):
+                    if has_x and lv != X:
+                        continue     # other effects of the deciding statement happen with it, not after it
                     if lv == X:
                         if op in ('=', 'decl') and rhs is not None:
                             rb = self._ev(rhs, (b, j), depth + 1)
@@ -343,9 +346,12 @@ class Bounds:
                             rb = self._through_cast(rb, f.N[rhs].get('t'), node.get('t'))
                             if self._pure(f.N[rhs]):
                                 rs = f.s(rhs)
+                                lo0 = rb.lo
                                 rb = rb.copy()
                                 rb.ubs.add(('<=', rs))
                                 rb.lbs.add(('>=', rs))
+                                if lo0 is not None:
+                                    rb.slo[rs] = lo0
                             results.append(rb)
                         elif op in ('post++', '++', '+=') and depth < MAXD:
                             # x++ : lower bound survives (no wrap assumed for the lower side only when type is wide)
@@ -392,7 +398,9 @@ class Bounds:
                         if self._lv_str(l) == X:
                             fb = self._fact_bounds(op, r, (pb, len(pbl['elems'])), depth)
                             gb = fb if gb is None else meet(gb, fb)
-                    if gb is not None and (gb.lo is not None or gb.hi is not None or gb.ubs or gb.lbs):
+                    if gb is not None and gb.bot:
+                        g = gb      # guard operand still bottom in this fixpoint round: the path contributes nothing yet
+                    elif gb is not None and (gb.lo is not None or gb.hi is not None or gb.ubs or gb.lbs):
                         # the guard decides only one direction; merge with what holds before the guard
                         before = self.var(X, node, (pb, len(pbl['elems'])), depth + 1) if depth < MAXD - 2 else B()
                         # cond elements may assign X itself ((x = f()) < 0): `before` already sees that assignment
@@ -693,6 +701,17 @@ class Bounds:
                         fb = self._fact_bounds(op, r, point, depth)
                         nb = meet(bb, fb)
                         bb.lo, bb.hi, bb.ubs, bb.lbs = nb.lo, nb.hi, nb.ubs, nb.lbs
+            # constant arm under a condition that bounds another expression from below: c ? K : e with c == (X > K2), K <= K2  =>  K <= X
+            for arm, pol, bb in ((x, True, bx), (y, False, by)):
+                cv = f.unwrap(f.N[arm]).get('v')
+                if cv is None:
+                    continue
+                for (l, op, r) in self.guard_facts(c, pol):
+                    if r is None or op not in ('>', '>='):
+                        continue
+                    rv = f.unwrap(r).get('v')
+                    if rv is not None and self._pure(l) and (rv + (1 if op == '>' else 0)) >= cv:
+                        bb.ubs.add(('<=', self._lv_str(l)))
             for arm, bb in ((x, bx), (y, by)):
                 if self._pure(f.N[arm]):
                     s = f.s(arm)
